@@ -6,6 +6,12 @@ ALL = ["C%02d" % i for i in range(1, 21)]
 
 WRAP_NOTE = "Shaped runs are synthetic (generator asserts the shaper output contract); break opportunities come from the segmenter (C06). Negative letter spacing is checked for conservation only (measure not monotone)."
 CHECKS = {
+ "C13": dict(
+   level="model_checking",
+   text="Explicit exploration of every operation history up to depth 4 (thorough 5; LineWrapper 3/4) on 7 real objects: HarfbuzzShaper (several faces incl. two faces of one variable Font, sizes, features, directions, cache sizes, SetVariations on a cached face), harfbuzz.Buffer (flags, cluster levels, ranged features, sub-ranges), font.Face on a CFF2-variable, a gvar/HVAR and a bitmap font (SetVariations/SetCoords/SetPpem interleaved with queries), shaping.Segmenter, LineWrapper (WrapParagraph / Prepare / WrapNextLine). The last call of every history must equal the same call on freshly constructed objects; earlier results are re-compared with their copies until the documented invalidation point.",
+   note="No hidden-state merging: histories are enumerated exhaustively and run on the implementation. segmenter.Segmenter reuse is decided by C06. Input alphabets are small and chosen to collide (same Font/different Face, same counts/different clusters).",
+   technique="explicit-state exploration of operation histories on the real objects with a differential (fresh object) oracle (E2)",
+   design="1/C13", engine="E2 hist"),
  "C16": dict(
    level="fault_enumeration",
    text="(a) round trip of the index of every corpus face and of extreme synthetic footprints; (b) every prefix (crash point) of the written gzip stream, every byte x 255 values of it, and byte/prefix faults of the uncompressed payload re-compressed, for two indexes; (c) the refresh sequence on every crash state of the cache file; (d) explicit-state search over file-system histories (17 operations incl. backward mtimes, renames, symlinks) with a refresh and a persist/reload after each step, deduplicated on (tree listing, persisted index): incremental scan == scan from scratch.",
